@@ -362,7 +362,10 @@ func (d *TCPDialer) tryDial(
 	defer cancelCtx()
 	conn, err := dialer.DialContext(ctx, network, addr)
 	if err != nil {
-		if ctx.Err() == context.DeadlineExceeded {
+		// net.Dialer also arms the socket deadline from ctx, so the connect can
+		// fail with the poller's timeout error before ctx itself has expired.
+		var netErr net.Error
+		if ctx.Err() == context.DeadlineExceeded || (errors.As(err, &netErr) && netErr.Timeout() && !time.Now().Before(deadline)) {
 			return nil, wrapDialWithUpstream(ErrDialTimeout, addr)
 		}
 		return nil, wrapDialWithUpstream(err, addr)
